@@ -4,6 +4,7 @@
 import SV.Immunity.Proofs
 import SV.GenProofs.Immunity
 import SV.Immunity.CacheProofs
+import SV.GenProofs.Config
 namespace SV.Props.C13
 open SV SV.Immunity
 
@@ -70,5 +71,13 @@ theorem cache_immunize_gate_refuses_whole (c : Cache) (keys : List Bytes)
     (∀ k, (c.immunizeKeys keys).1.chunkOf k = c.chunkOf k) ∧
     (c.immunizeKeys keys).1.immuneKeys = c.immuneKeys ∧ (c.immunizeKeys keys).1.items = c.items :=
   immunize_gate_refuses_whole c keys hg
+
+/-- for EVERY configuration accepted by `NewImmunityCache` / `NewCrossTxCache` (validity test translated from
+    `CacheConfig.Verify` / `ConfigDestinationMe.verify`): invariant and capacity bound after any history -/
+theorem holds_for_every_accepted_configuration (cfg : Config) (nameLen : Nat) (hacc : GenProofs.immunityAccepted cfg nameLen = true)
+    (ops : List CacheOp) (hw : ∀ op ∈ ops, op.sizeOk) :
+    CacheInv (ops.foldl Cache.apply (Cache.init cfg)) ∧ (ops.foldl Cache.apply (Cache.init cfg)).count ≤ cfg.maxNumItems :=
+  have hb := GenProofs.immunityAccepted_bounds cfg nameLen hacc
+  ⟨CacheInv.run cfg hb.2.1 ops hw, count_le_max_run cfg hb.2.1 ops hw⟩
 
 end SV.Props.C13
